@@ -1,5 +1,7 @@
 import GeoVerif.Model.MathF
 import GeoVerif.Proofs.F64Val
+import GeoVerif.Proofs.TwoSum
+import GeoVerif.Model.Accum
 import Mathlib.Analysis.SpecialFunctions.Trigonometric.Basic
 import Mathlib.Tactic.Ring
 import Mathlib.Tactic.Linarith
@@ -270,6 +272,143 @@ example :
     s1.1.isFinite = true ∧ s2.1.isFinite = true ∧
     Dy.eq (Dy.add s1.1.toDy s1.2.toDy) (Dy.add (remainder (F64.neg x) td).toDy (remainder y td).toDy) = true ∧
     Dy.eq (Dy.add s2.1.toDy s2.2.toDy) (Dy.add (remainder s1.1 td).toDy s1.2.toDy) = true := by decide
+
+/-! ## TwoSum: `Math::sum` is error free, and `AngDiff` without hypotheses -/
+
+/-- **`Math::sum` is error free** (property C16, last sentence; Knuth's TwoSum for the executable binary64 model,
+round-to-nearest-even with gradual underflow).  For all finite representable `u`, `v` with `|u|, |v| ≤ 2^1018`
+(no overflow in any of the six operations): the first component is the floating-point sum `u + v` (the correctly
+rounded exact sum), the second is finite and representable, and `s + t = u + v` **exactly**. -/
+theorem sum_exact (u v : F64) (hu : F64.IsRep u) (hv : F64.IsRep v)
+    (hub : |u.val| ≤ (2:ℚ) ^ (1018:ℤ)) (hvb : |v.val| ≤ (2:ℚ) ^ (1018:ℤ)) :
+    (MathF.sum u v).1 = u + v ∧
+    (MathF.sum u v).1.isFinite = true ∧ (MathF.sum u v).2.isFinite = true ∧
+    IsRN 53 (-1074) (u.val + v.val) (MathF.sum u v).1.val ∧ Rep (MathF.sum u v).2.val ∧
+    (MathF.sum u v).1.val + (MathF.sum u v).2.val = u.val + v.val :=
+  F64.twoSum_exact u v hu hv hub hvb
+
+theorem small_le (x : ℚ) (h : |x| ≤ 180) : |x| ≤ (2:ℚ) ^ (1018:ℤ) := by
+  calc |x| ≤ 180 := h
+    _ ≤ (2:ℚ) ^ (8:ℤ) := by norm_num
+    _ ≤ (2:ℚ) ^ (1018:ℤ) := Dy.two_zpow_le (by norm_num)
+
+/-- **AngDiff is exact modulo 360** — the full statement, no TwoSum hypothesis: for all finite representable `x`, `y`,
+`d + e ≡ y − x (mod 360)` exactly, with `(d, e) = AngDiff(x, y)`. -/
+theorem angDiff_exact (sx sy : Bool) (mx my : ℕ) (ex ey : ℤ)
+    (hx : F64.IsRep (F64.fin sx mx ex)) (hy : F64.IsRep (F64.fin sy my ey)) :
+    ∃ n : ℤ, (angDiff (F64.fin sx mx ex) (F64.fin sy my ey)).1.val + (angDiff (F64.fin sx mx ex) (F64.fin sy my ey)).2.val
+      = (F64.fin sy my ey).val - (F64.fin sx mx ex).val - 360 * n := by
+  have hnx := F64.IsRep.neg_fin sx mx ex hx
+  obtain ⟨ru, bu⟩ := F64.remainder360_rep (!sx) mx ex hnx
+  obtain ⟨rv, bv⟩ := F64.remainder360_rep sy my ey hy
+  have e1 : remainder (F64.neg (F64.fin sx mx ex)) td = remainder (F64.fin (!sx) mx ex) (F64.fin false 360 0) := rfl
+  have e2 : remainder (F64.fin sy my ey) td = remainder (F64.fin sy my ey) (F64.fin false 360 0) := rfl
+  obtain ⟨_, f1, f1t, r1, rep1t, hs1⟩ := F64.twoSum_exact _ _ ru rv (small_le _ bu) (small_le _ bv)
+  obtain ⟨_, lowv⟩ := F64.twoSum_low_le _ _ ru rv (small_le _ bu) (small_le _ bv)
+  -- the second call
+  obtain ⟨s3, m3, e3, hd1⟩ := F64.exists_fin_of_isFinite _ f1
+  have rep1 : F64.IsRep (F64.fin s3 m3 e3) := by
+    rw [← hd1]; exact ⟨f1, r1.rep⟩
+  obtain ⟨ru2, bu2⟩ := F64.remainder360_rep s3 m3 e3 rep1
+  have e3' : remainder (MathF.sum (remainder (F64.fin (!sx) mx ex) (F64.fin false 360 0))
+      (remainder (F64.fin sy my ey) (F64.fin false 360 0))).1 td = remainder (F64.fin s3 m3 e3) (F64.fin false 360 0) := by
+    rw [hd1]; rfl
+  have hv2 : |(MathF.sum (remainder (F64.fin (!sx) mx ex) (F64.fin false 360 0))
+      (remainder (F64.fin sy my ey) (F64.fin false 360 0))).2.val| ≤ (2:ℚ) ^ (1018:ℤ) :=
+    small_le _ (le_trans lowv bv)
+  obtain ⟨_, f2, _, _, _, hs2⟩ := F64.twoSum_exact _ _ ru2 ⟨f1t, rep1t⟩ (small_le _ bu2) hv2
+  have := angDiff_exact_partial sx sy mx my ex ey
+  simp only [] at this
+  rw [e1, e2, e3'] at this
+  exact this f1 f2 hs1 hs2
+
+/-- non-vacuity: 10.5 and 350.25 are finite representable values -/
+example : F64.IsRep (F64.fin false 21 (-1)) ∧ F64.IsRep (F64.fin false 1401 (-2)) :=
+  ⟨⟨rfl, 21, -1, by norm_num, by norm_num, by rw [F64.val_fin]; simp⟩,
+   ⟨rfl, 1401, -2, by norm_num, by norm_num, by rw [F64.val_fin]; simp⟩⟩
+
+/-! ## `Accumulator::Add` -/
+section Accumulator
+open GeoVerif.Accum
+
+theorem le_1018 {x : ℚ} {k : ℤ} (h : |x| ≤ (2:ℚ) ^ k) (hk : k ≤ 1018) : |x| ≤ (2:ℚ) ^ (1018:ℤ) :=
+  le_trans h (Dy.two_zpow_le hk)
+
+/-- **`Accumulator::Add`, one step** (all finite representable `_s`, `_t`, `y` of magnitude `≤ 2^1016`).
+The two TwoSum steps are exact: with `(y₁, u) = sum(y, _t)` and `(s₁, t₁) = sum(y₁, _s)`,
+`s₁ + t₁ + u = _s + _t + y` exactly.  The new pair is finite and representable, and
+`_s' + _t' = _s + _t + y + ε` where `ε = 0` if `s₁ = 0` (then the result is `(u, 0)`) and otherwise `ε` is the single
+rounding error of `_t' = t₁ ⊕ u`, `|ε| ≤ max(|t₁ + u|·2^(−53), 2^(−1075))` — the documented "1 ulp of the less
+significant word". -/
+theorem accum_add_step (a : Acc) (y : F64) (hs : F64.IsRep a.s) (ht : F64.IsRep a.t) (hy : F64.IsRep y)
+    (bs : |a.s.val| ≤ (2:ℚ) ^ (1016:ℤ)) (bt : |a.t.val| ≤ (2:ℚ) ^ (1016:ℤ)) (by' : |y.val| ≤ (2:ℚ) ^ (1016:ℤ)) :
+    let p := MathF.sum y a.t
+    let q := MathF.sum p.1 a.s
+    q.1.val + q.2.val + p.2.val = a.s.val + a.t.val + y.val ∧
+    F64.IsRep (add a y).s ∧ F64.IsRep (add a y).t ∧
+    (q.1.val = 0 → (add a y).s.val + (add a y).t.val = a.s.val + a.t.val + y.val) ∧
+    |(add a y).s.val + (add a y).t.val - (a.s.val + a.t.val + y.val)|
+      ≤ max (|q.2.val + p.2.val| * (2:ℚ) ^ (-(53:ℤ))) ((2:ℚ) ^ (-(1075:ℤ))) := by
+  intro p q
+  obtain ⟨_, pf1, pf2, pr1, prep2, psum⟩ := F64.twoSum_exact y a.t hy ht (le_1018 by' (by norm_num)) (le_1018 bt (by norm_num))
+  obtain ⟨_, plow⟩ := F64.twoSum_low_le y a.t hy ht (le_1018 by' (by norm_num)) (le_1018 bt (by norm_num))
+  have pb1 : |p.1.val| ≤ (2:ℚ) ^ (1017:ℤ) :=
+    RN.abs_le_zpow pr1 1017 (by norm_num) (F64.bound_add by' bt (by norm_num) (by norm_num))
+  have hp1 : F64.IsRep p.1 := ⟨pf1, pr1.rep⟩
+  obtain ⟨_, qf1, qf2, qr1, qrep2, qsum⟩ := F64.twoSum_exact p.1 a.s hp1 hs (le_1018 pb1 (by norm_num)) (le_1018 bs (by norm_num))
+  obtain ⟨_, qlow⟩ := F64.twoSum_low_le p.1 a.s hp1 hs (le_1018 pb1 (by norm_num)) (le_1018 bs (by norm_num))
+  have hexact : q.1.val + q.2.val + p.2.val = a.s.val + a.t.val + y.val := by
+    show (MathF.sum p.1 a.s).1.val + (MathF.sum p.1 a.s).2.val + (MathF.sum y a.t).2.val = _
+    rw [qsum]; linarith
+  have f0 : (0 : F64).isFinite = true := rfl
+  have hadd : add a y = if F64.eq q.1 0 = true then ⟨p.2, q.2⟩ else ⟨q.1, q.2 + p.2⟩ := rfl
+  have hpos : (0:ℚ) ≤ max (|q.2.val + p.2.val| * (2:ℚ) ^ (-(53:ℤ))) ((2:ℚ) ^ (-(1075:ℤ))) :=
+    le_trans (Dy.two_zpow_pos _).le (le_max_right _ _)
+  by_cases hz : F64.eq q.1 0 = true
+  · -- s₁ = 0 ⇒ t₁ = 0 and the result is (u, 0)
+    have hq1 : q.1.val = 0 := by rw [(F64.eq_fin_iff _ _ qf1 f0).mp hz, F64.val_zero]
+    have hq2 : q.2.val = 0 := by
+      -- the exact sum p.1 + a.s rounds to 0, hence is 0, hence the error is 0
+      have hq1' : (MathF.sum p.1 a.s).1.val = 0 := hq1
+      rw [hq1'] at qr1
+      have hrep : Rep (p.1.val + a.s.val) := by
+        have := err_rep hp1.2 hs.2 qr1; simpa using this
+      have h0 := hrep.rn_eq qr1
+      show (MathF.sum p.1 a.s).2.val = 0
+      linarith
+    rw [hadd, if_pos hz]
+    refine ⟨hexact, ⟨pf2, prep2⟩, ⟨qf2, qrep2⟩, fun _ => ?_, ?_⟩
+    · show p.2.val + q.2.val = _; linarith
+    · have : p.2.val + q.2.val - (a.s.val + a.t.val + y.val) = 0 := by linarith
+      show |p.2.val + q.2.val - (a.s.val + a.t.val + y.val)| ≤ _
+      rw [this, abs_zero]; exact hpos
+  · have hz' : F64.eq q.1 0 = false := by simpa using hz
+    rw [hadd, hz']
+    simp only [Bool.false_eq_true, if_false]
+    -- t' = t₁ ⊕ u
+    have bq2 : |q.2.val| ≤ (2:ℚ) ^ (1016:ℤ) := le_trans qlow bs
+    have bp2 : |p.2.val| ≤ (2:ℚ) ^ (1016:ℤ) := le_trans plow bt
+    obtain ⟨tf, tr, _⟩ := F64.add_rn q.2 p.2 qf2 pf2 1017 (by norm_num) (by norm_num)
+      (F64.bound_add bq2 bp2 (by norm_num) (by norm_num))
+    have hq1ne : q.1.val ≠ 0 := by
+      intro h0
+      have : F64.eq q.1 0 = true := (F64.eq_fin_iff _ _ qf1 f0).mpr (by rw [h0, F64.val_zero])
+      rw [this] at hz'; exact absurd hz' (by decide)
+    refine ⟨hexact, ⟨qf1, qr1.rep⟩, ⟨tf, tr.rep⟩, fun h0 => absurd h0 hq1ne, ?_⟩
+    have herr := tr.err
+    have e : (q.1.val + (q.2 + p.2).val - (a.s.val + a.t.val + y.val)) = (q.2 + p.2).val - (q.2.val + p.2.val) := by linarith
+    show |q.1.val + (q.2 + p.2).val - (a.s.val + a.t.val + y.val)| ≤ _
+    rw [e]
+    have e2 : ((-1074:ℤ) - 1) = -1075 := by norm_num
+    rw [e2] at herr
+    exact_mod_cast herr
+
+
+/-- non-vacuity: adding 1 to the accumulator (2^53, 0) keeps the exact total in the low word -/
+example : (match add ⟨.fin false 1 53, 0⟩ (.fin false 1 0) with
+    | ⟨s, t⟩ => F64.same s (.fin false 1 53) && F64.same t (.fin false 1 0)) = true := by decide +kernel
+
+end Accumulator
 
 /-! ## `atan2d`: the octant scheme is correct over ℝ -/
 
